@@ -69,6 +69,12 @@ where
         self.len += buf.len();
     }
 
+    /// Number of bytes currently buffered (verification hook).
+    #[cfg(lzma_rs_verif)]
+    pub fn verif_buf_len(&self) -> usize {
+        self.buf.len()
+    }
+
     /// Reset the internal dictionary.
     pub fn reset(&mut self) -> io::Result<()> {
         self.stream.write_all(self.buf.as_slice())?;
@@ -197,6 +203,12 @@ where
             cursor: 0,
             len: 0,
         }
+    }
+
+    /// Number of bytes currently buffered (verification hook).
+    #[cfg(lzma_rs_verif)]
+    pub fn verif_buf_len(&self) -> usize {
+        self.buf.len()
     }
 
     fn get(&self, index: usize) -> u8 {
